@@ -88,8 +88,8 @@ func H_C14_stringHelpers(n int, helper int) {
 	valid := ref.ok && !ref.overflow
 	var c1, c2 int
 	var e1, e2 error
-	var l1 Ver
-	var le error
+	var l1, l2 Ver
+	var le, le2 error
 	var other Ver
 	var okHere bool
 	switch helper {
@@ -97,29 +97,32 @@ func H_C14_stringHelpers(n int, helper int) {
 		c1, e1 = Compare(in, []byte(fixedT))
 		c2, e2 = Compare(fixedV, string(in))
 		l1, le = Latest(in, fixedV)
+		l2, le2 = Latest(fixedT, string(in))
 		other, _ = Parse(fixedV)
 		okHere = valid
 	case 1:
 		c1, e1 = CompareVersion[string, string](string(in), fixedV)
 		c2, e2 = CompareVersion[string, string](fixedV, string(in))
 		l1, le = LatestVersion(in, fixedV)
+		l2, le2 = LatestVersion(fixedV, in)
 		other, _ = Parse(fixedV)
 		okHere = valid && !ref.tag
 	case 2:
 		c1, e1 = CompareTag(in, fixedT)
 		c2, e2 = CompareTag(fixedT, in)
 		l1, le = LatestTag(in, fixedT)
+		l2, le2 = LatestTag(fixedT, string(in))
 		other, _ = Parse(fixedT)
 		okHere = valid && ref.tag
 	}
 	vReach("valid-input", okHere)
 	vReach("invalid-input", !okHere)
-	vAssert("error-iff-invalid", (e1 == nil) == okHere && (e2 == nil) == okHere && (le == nil) == okHere)
+	vAssert("error-iff-invalid", (e1 == nil) == okHere && (e2 == nil) == okHere && (le == nil) == okHere && (le2 == nil) == okHere)
 	if okHere {
 		pv, _ := Parse(in)
 		vAssert("same-as-value-compare", c1 == pv.Compare(other) && c2 == other.Compare(pv))
-		vAssert("latest-same-as-value-latest", l1 == pv.Latest(other))
+		vAssert("latest-same-as-value-latest", l1 == pv.Latest(other) && l2 == other.Latest(pv))
 	} else {
-		vAssert("zero-on-error", c1 == 0 && c2 == 0 && l1 == Ver{})
+		vAssert("zero-on-error", c1 == 0 && c2 == 0 && l1 == Ver{} && l2 == Ver{})
 	}
 }
